@@ -22,7 +22,8 @@ inline long long RowLegalizer::getDisplacement(int width, int targetPos,
          ((slope < 0 and bounds.top().absolutePos > targetAbsPos) or
           bounds.top().absolutePos > end_ - usedSpace() - width)) {
     int old_pos = cur_pos;
-    cur_pos = bounds.top().absolutePos;
+    // Bounds beyond the current right limit have already been paid for
+    cur_pos = std::min(bounds.top().absolutePos, end_ - usedSpace());
     cur_cost += static_cast<long long>(old_pos - cur_pos) * (slope + width);
     slope += bounds.top().weight;
 
